@@ -76,9 +76,20 @@ class StateMachineMatcher:
         have_match_for = set()
         websocket_mismatch = False
 
+        def _convert(rule: Rule, values: list[str]) -> dict[str, t.Any] | None:
+            # Convert the captured values. A converter that raises
+            # ValidationError means the rule does not match the path.
+            result = {}
+            for name, value in zip(rule._converters.keys(), values):
+                try:
+                    result[str(name)] = rule._converters[name].to_python(value)
+                except ValidationError:
+                    return None
+            return result
+
         def _match(
             state: State, parts: list[str], values: list[str]
-        ) -> tuple[Rule, list[str]] | None:
+        ) -> tuple[Rule, dict[str, t.Any]] | None:
             # This function is meant to be called recursively, and will attempt
             # to match the head part to the state's transitions.
             nonlocal have_match_for, websocket_mismatch
@@ -89,25 +100,31 @@ class StateMachineMatcher:
             # extracted.
             if parts == []:
                 for rule in state.rules:
+                    result = _convert(rule, values)
+                    if result is None:
+                        continue
                     if rule.methods is not None and method not in rule.methods:
                         have_match_for.update(rule.methods)
                     elif rule.websocket != websocket:
                         websocket_mismatch = True
                     else:
-                        return rule, values
+                        return rule, result
 
                 # Test if there is a match with this path with a
                 # trailing slash, if so raise an exception to report
                 # that matching is possible with an additional slash
                 if "" in state.static:
                     for rule in state.static[""].rules:
+                        result = _convert(rule, values)
+                        if result is None:
+                            continue
                         if websocket == rule.websocket and (
                             rule.methods is None or method in rule.methods
                         ):
                             if rule.strict_slashes:
                                 raise SlashRequired()
                             else:
-                                return rule, values
+                                return rule, result
                 return None
 
             part = parts[0]
@@ -156,12 +173,15 @@ class StateMachineMatcher:
                 for rule in state.rules:
                     if rule.strict_slashes:
                         continue
+                    result = _convert(rule, values)
+                    if result is None:
+                        continue
                     if rule.methods is not None and method not in rule.methods:
                         have_match_for.update(rule.methods)
                     elif rule.websocket != websocket:
                         websocket_mismatch = True
                     else:
-                        return rule, values
+                        return rule, result
 
             return None
 
@@ -182,15 +202,8 @@ class StateMachineMatcher:
             else:
                 raise RequestPath(f"{path}")
         elif rv is not None:
-            rule, values = rv
+            rule, result = rv
 
-            result = {}
-            for name, value in zip(rule._converters.keys(), values):
-                try:
-                    value = rule._converters[name].to_python(value)
-                except ValidationError:
-                    raise NoMatch(have_match_for, websocket_mismatch) from None
-                result[str(name)] = value
             if rule.defaults:
                 result.update(rule.defaults)
 
